@@ -60,7 +60,8 @@ func (hs *clientHandshakeStateTLS13) handshake() error {
 	}
 
 	// Consistency check on the presence of a keyShare and its parameters.
-	if hs.keyShareKeys == nil || hs.keyShareKeys.ecdhe == nil || len(hs.hello.keyShares) == 0 {
+	// [uTLS] a hello whose only key share is a hybrid one has no ecdhe key but an mlkemEcdhe key
+	if hs.keyShareKeys == nil || (hs.keyShareKeys.ecdhe == nil && hs.keyShareKeys.mlkemEcdhe == nil) || len(hs.hello.keyShares) == 0 {
 		return c.sendAlert(alertInternalError)
 	}
 
@@ -567,6 +568,9 @@ func (hs *clientHandshakeStateTLS13) processServerHello() error {
 
 // [uTLS] SECTION BEGIN
 func getSharedKey(peerData []byte, key *ecdh.PrivateKey) ([]byte, error) {
+	if key == nil {
+		return nil, errors.New("tls: no private key for the selected key share")
+	}
 	peerKey, err := key.Curve().NewPublicKey(peerData)
 	if err != nil {
 		return nil, errors.New("tls: invalid server key share")
@@ -600,7 +604,23 @@ func (hs *clientHandshakeStateTLS13) establishHandshakeKeys() error {
 		}
 		ecdhePeerData = hs.serverHello.serverShare.data[:x25519PublicKeySize]
 	}
-	sharedKey, err := getSharedKey(ecdhePeerData, hs.keyShareKeys.ecdhe)
+	// Use the private key that belongs to the share the server selected: the hybrid shares
+	// built by uTLS have their own X25519 key, and any classical share may be selected, not
+	// only the first one sent.
+	ecdheKey := hs.keyShareKeys.ecdhe
+	switch group := hs.serverHello.serverShare.group; group {
+	case X25519MLKEM768, X25519Kyber768Draft00:
+		if hs.uconn != nil && hs.uconn.clientHelloBuildStatus == BuildByUtls && hs.keyShareKeys.mlkemEcdhe != nil {
+			ecdheKey = hs.keyShareKeys.mlkemEcdhe
+		}
+	default:
+		if key, ok := hs.keyShareKeys.ecdheByGroup[group]; ok {
+			if curve, _ := curveForCurveID(group); ecdheKey == nil || ecdheKey.Curve() != curve {
+				ecdheKey = key
+			}
+		}
+	}
+	sharedKey, err := getSharedKey(ecdhePeerData, ecdheKey)
 	// [uTLS] SECTION END
 	if err != nil {
 		c.sendAlert(alertIllegalParameter)
